@@ -154,6 +154,15 @@ def cases(rng, which, count):
                 yield Case("cli_lib", [sl, "trim", "name", "-a"], True, "cli-trim-name-auto")
                 yield Case("cli_libf", [sl, "_", "trim", "name", "-m", "map.txt", "-n", nn], True, "cli-trim-name-map")
                 yield Case("cli_libf", [sl, "_", "trim", "name", "-m", "map.txt", "-a"], True, "cli-trim-name-auto-map")
+            elif w == "subset":
+                big = rows + [("x%d" % i, rows[0][1]) for i in range(rng.choice([0, 0, 8, 12]))]
+                sb = esc(fasta(big))
+                names = [r[0] for r in big]
+                pick = rng.sample(names, rng.randint(1, min(4, len(names)))) + (["nope"] if rng.random() < 0.3 else [])
+                rv = ["-r"] if rng.random() < 0.4 else []
+                yield Case("cli_lib", [sb, "subset"] + pick + rv, True, "cli-subset-names")
+                idx = [str(i) for i in rng.sample(range(len(big) + 2), rng.randint(1, min(4, len(big))))]
+                yield Case("cli_lib", [sb, "subset", "--indices"] + idx + rv, True, "cli-subset-indices")
             elif w == "rename":
                 odd = [("%s%s" % (rng.choice(["a b", "x(1)", "t;u", "p:q", "n,m", "[k]", "ok"]), nm), sq) for nm, sq in rows]
                 yield Case("cli_lib", [esc(fasta(odd)), "rename", "--clean-names"], True, "cli-rename-clean")
